@@ -66,6 +66,8 @@ def _replay_cmd(exe, case):
 def run(tier, replay=None):
     r = vlib.Run("C12", tier)
     cres = vlib.coq_check("C12", targets=["theories/Extract_C12.vo", "theories/Properties_C12.vo"])
+    # when the Coq side broke, every replay file also names the broken obligation / kernel
+    side = {} if cres["ok"] else {"proof_side": "BROKEN on this tree: %s" % cres["broken"]}
     exe = vlib.build_harness(HARNESS, "rel", need_lib=True)
     wdir = os.path.join(vlib.WORK, "c12")
     os.makedirs(wdir, exist_ok=True)
@@ -141,7 +143,7 @@ def run(tier, replay=None):
         r.violation("impl-%d" % (len(seen_kinds) - 1),
                     {"kind": "direct property check failed on the implementation", "what": what, "case": _clip(case),
                      "format": "OP args | samples | oracle answers (std::shuffle positions / draws) = implementation result (train ; valid / ...)",
-                     "replay_cmd": _replay_cmd(exe, case)})
+                     "replay_cmd": _replay_cmd(exe, case), **side})
         if len(seen_kinds) >= 3:
             break
 
@@ -174,7 +176,7 @@ def run(tier, replay=None):
             case = _case_of(l)
             r.violation("prop-%d" % i, {"kind": "checker in the model driver (verified split/sortedness/membership checkers of C12_Defs, zero-weight lookup) "
                                                 "rejects what the implementation returned",
-                                        "what": l.split(" // ", 1)[-1], "case": _clip(case), "replay_cmd": _replay_cmd(exe, case)})
+                                        "what": l.split(" // ", 1)[-1], "case": _clip(case), "replay_cmd": _replay_cmd(exe, case), **side})
         mism.sort(key=len)
         concrete = bool(fails or propfail)
         for i, l in enumerate(mism[:2]):
@@ -183,7 +185,7 @@ def run(tier, replay=None):
                                         "case": _clip(case), "model_says": _clip(l.split(" // ", 1)[-1], 4000),
                                         "meaning": "on this input the library does not compute what the proved model computes from the same "
                                                    "std::shuffle / distribution answers (the tie is broken)",
-                                        "replay_cmd": _replay_cmd(exe, case)},
+                                        "replay_cmd": _replay_cmd(exe, case), **side},
                         no_input=not concrete)
     vlib.handle_coq_failure(r, cres)
     vlib.proof_coverage(r, cres, "make -C coq theories/Properties_C12.vo && coqc theories/Properties_C12.v (Print Assumptions)",
